@@ -33,7 +33,7 @@ use crate::{
     error::{Error, ErrorExt, ErrorImpl},
     flags::{OpenFlags, ResolverFlags},
     procfs,
-    resolvers::MAX_SYMLINK_TRAVERSALS,
+    resolvers::{openat2::openat2_retry, MAX_SYMLINK_TRAVERSALS},
     syscalls::{self, OpenHow},
     utils::{self, FdExt, PathIterExt},
 };
@@ -116,7 +116,7 @@ fn openat2_resolve<Fd: AsFd, P: AsRef<Path>>(
     let rflags =
         libc::RESOLVE_BENEATH | libc::RESOLVE_NO_MAGICLINKS | libc::RESOLVE_NO_XDEV | rflags.bits();
 
-    syscalls::openat2(
+    openat2_retry(
         root,
         path,
         &OpenHow {
@@ -124,14 +124,8 @@ fn openat2_resolve<Fd: AsFd, P: AsRef<Path>>(
             resolve: rflags,
             ..Default::default()
         },
+        "open subpath in procfs",
     )
-    .map_err(|err| {
-        ErrorImpl::RawOsError {
-            operation: "open subpath in procfs".into(),
-            source: err,
-        }
-        .into()
-    })
 }
 
 /// `O_PATH`-based implementation of [`ProcfsResolver`].
